@@ -366,3 +366,27 @@ def r12(rr, repo):
         else:
             rr.ob('the PUB socket is closed with a finite linger', bool(f) or by_opt or by_ctx, za.mod, c,
                   witness=f'{U(c)[:80]}; LINGER option on the socket: {by_opt}; linger on the context: {by_ctx}', key='pub-close-bounded')
+
+
+@rule('C05.R13', "a listener stays a listener: whether a client is ephemeral is taken from its REQUESTS (every request envelope says so); handling an out-of-band message or a CLOSE never rewrites a client's record "
+                 "from that message's own fields - such an envelope carries no 'eph' mark, the listener would be filed as a synchronized client that has not asked, and the publisher would wait for it")
+def r13(rr, repo):
+    za = anchors(repo)
+    fields = list(za.client_fields)
+    ei = fields.index('ephemeral') if 'ephemeral' in fields else None
+    if ei is None:
+        raise Unresolved(f'{Z}: ZMQSender.Client has no ephemeral field any more')
+    builds = [c for c in q.calls_in(za.S_poll, into_functions=False) if U(c.func).endswith('Client') and len(c.args) > ei]
+    rr.floor('constructions of a client record in poll_recv', len(builds), 1, za.mod, za.S_poll)
+    k = 0
+    for c in builds:
+        g = q.effective_guards(c, za.S_poll)
+        special = any(p and ('MSG_ID_SPECIAL' in t or 'MSG_ID_OOB' in t or 'MSG_ID_CLOSE' in t) for t, p in g)
+        arg = U(c.args[ei])
+        if special:
+            k += 1
+            rr.ob("a record rewritten while a special message (out-of-band, CLOSE) is handled keeps the client's own ephemeral flag", arg.endswith('.ephemeral') and not arg.startswith(za.s_env), za.mod, c,
+                  witness=f'ephemeral := {arg}', key='special-message-keeps-ephemeral')
+        else:
+            ok = any(isinstance(n, ast.Assign) and U(n.targets[0]) == arg and f"{za.s_env}.get('eph'" in U(n.value).replace('"', "'") for n in walk_scope(za.S_poll))
+            rr.ob("an ordinary request files the client with the ephemeral mark of that request", ok, za.mod, c, witness=f'ephemeral := {arg}', key='request-sets-ephemeral')
